@@ -1106,12 +1106,18 @@ def instances(tier: str) -> List[Tuple[str, tuple, dict, Callable[..., Callable[
     # castle wall (cells are lattice points)
     I += [("castle_wall", (3, 3, [["..", "..", ".."], ["..", ">1", ".."], ["..", "..", ".."]], [[None] * 3, [None, True, None], [None] * 3]), {}, rule_castle_wall),
           ("castle_wall", (3, 3, [["v1", "..", ".."], ["..", "..", ".."], ["..", "..", ".."]], [[False, None, None], [None] * 3, [None] * 3]), {}, rule_castle_wall),
-          ("castle_wall", (3, 3, [["..", "..", ".."], ["..", "..", ".."], ["..", "..", "<2"]], [[None] * 3, [None] * 3, [None, None, None]]), {}, rule_castle_wall),
+          ("castle_wall", (3, 3, [["..", "..", ".."], ["..", "..", ".."], ["..", "..", "<1"]], [[None] * 3, [None] * 3, [None, None, None]]), {}, rule_castle_wall),
+          ("castle_wall", (3, 3, [["..", "..", ">1"], ["..", "..", ".."], ["..", "..", ".."]], [[None] * 3, [None] * 3, [None] * 3]), {}, rule_castle_wall),
           ("castle_wall", (2, 4, [["..", "..", "..", ".."], ["^0", "..", "..", ".."]], [[None] * 4, [False, None, None, None]]), {}, rule_castle_wall)]
     # shakashaka (integer answers 0..4)
     I += [("shakashaka", (2, 2, [[None, None], [None, None]]), {}, rule_shakashaka),
           ("shakashaka", (2, 3, [[None, None, None], [None, None, -1]]), {}, rule_shakashaka),
-          ("shakashaka", (2, 2, [[None, 1], [None, None]]), {}, rule_shakashaka)]
+          ("shakashaka", (2, 2, [[None, 1], [None, None]]), {}, rule_shakashaka),
+          ("shakashaka", (2, 2, [[None, 2], [None, None]]), {}, rule_shakashaka),
+          ("shakashaka", (2, 2, [[None, 0], [None, None]]), {}, rule_shakashaka),
+          # 3x3 with a numbered black corner: 5^8 answers, so only "every admitted answer obeys the rules" is decided here
+          ("shakashaka", (3, 3, [[2, None, None], [None, None, None], [None, None, None]]), {"__sound_only__": True}, rule_shakashaka),
+          ("shakashaka", (3, 3, [[0, None, None], [None, None, None], [None, None, None]]), {"__sound_only__": True}, rule_shakashaka)]
     if deep:
         I += [("shakashaka", (2, 3, [[None, None, None], [None, None, None]]), {}, rule_shakashaka), ("shakashaka", (3, 2, [[None, None], [2, None], [None, None]]), {}, rule_shakashaka)]
     # sudoku: decided through constraint-wise soundness and pairwise refutation (all boards of that order)
@@ -1171,6 +1177,8 @@ def _job(args) -> Tuple[str, str, int]:
 
     repo = Repo(root, overrides)
     name, a, kw, rule = instances(tier)[idx]
+    kw = dict(kw)
+    sound_only = bool(kw.pop("__sound_only__", False))
     fn = f"solve_{name}"
     label = f"{fn}{_brief(a)}{' ' + str(kw) if kw else ''}"
     try:
@@ -1196,6 +1204,29 @@ def _job(args) -> Tuple[str, str, int]:
         ok = rule(*a, **kw)
         doms = [posted.domains()[i] for i in ids]
         n = 0
+        if sound_only:
+            # the answer space is too large to enumerate: list the answers the posted constraints admit (depth-first over the answer
+            # variables, each prefix kept only if it still extends) and require each to obey the rules; rule-obeying grids that the
+            # constraints reject are not looked for on this instance
+            found: List[Tuple[Any, ...]] = []
+
+            def dfs(k: int, part: Dict[int, Any]) -> None:
+                nonlocal n
+                if k == len(ids):
+                    found.append(tuple(part[i] for i in ids))
+                    return
+                for v in doms[k]:
+                    part[ids[k]] = v
+                    n += 1
+                    if ext.sat(dict(part)):
+                        dfs(k + 1, part)
+                    del part[ids[k]]
+
+            dfs(0, {})
+            for pat in found:
+                if not ok(pat):
+                    return "bad", f"{label}: the posted constraints admit the answer {_show(pat)} which the published rules reject", n
+            return "ok", label + f" [{len(found)} admitted answers, each obeys the rules]", n
         for pat in itertools.product(*doms):
             n += 1
             got = ext.sat(dict(zip(ids, pat)))
